@@ -1142,6 +1142,12 @@ func (c *Ctx) literalOf(v ssa.Value) (map[string]ssa.Value, bool) {
 // the record its caller passed.
 func (c *Ctx) recordRoot(base ssa.Value) ssa.Value {
 	b := core.Strip(base)
+	if fa, ok := b.(*ssa.FieldAddr); ok {
+		// the record kept in a write-once field of a request-scoped struct
+		if v := core.CarrierFieldValue(fa); v != nil {
+			b = core.Strip(v)
+		}
+	}
 	if a, ok := b.(*ssa.Alloc); ok && a.Referrers() != nil {
 		var st *ssa.Store
 		n := 0
@@ -1243,4 +1249,16 @@ func (c *Ctx) regionCallsTo(root *ssa.Function, f *types.Func) []ssa.CallInstruc
 		out = append(out, core.CallsTo(fn, f)...)
 	}
 	return out
+}
+
+// sameCarrierField: both values are loads of the same field of the same request-scoped object (the
+// object being followed through receivers / parameters with a single call site).
+func (c *Ctx) sameCarrierField(a, b ssa.Value) bool {
+	fa, ba := core.LoadedField(core.Strip(a))
+	fb, bb := core.LoadedField(core.Strip(b))
+	if fa == nil || fa != fb || ba == nil || bb == nil {
+		return false
+	}
+	ra, rb := c.rootValue(ba), c.rootValue(bb)
+	return ra == rb || sameValue(ra, rb, 0)
 }
